@@ -2467,3 +2467,42 @@ func c04SparseEntries(c *Ctx, rule string) {
 	}
 	c.R.floor(rule, "updates of the sparse store's map", n, 2)
 }
+
+
+// c04AddPaths: the obligations that make a store a faithful map from index to accumulated weight on the ADD side —
+// entry points, window and shift discipline of the dense family, the paginated store's page table and page use, the
+// sparse store's entries. Properties that state what a sketch answers after additions re-evaluate them (under their
+// home rule ids): a quantile is only as right as the bin its value was counted in.
+func c04AddPaths(c *Ctx) {
+	storeI := c.P.NamedType(pkgStore, "Store")
+	if storeI == nil {
+		return
+	}
+	impls := c.P.Implementations(storeI)
+	c04Entry(c, impls)
+	c04Windows(c)
+	c04Shift(c, "C04-D6")
+	c04Normalize(c, "C04-D6")
+	c05ExtendPost(c)
+	c04SparseEntries(c, "C04-D3")
+	if pr := c.paginated(); pr.err == "" {
+		c04PageTable(c, pr, "C04-D9")
+		c04PageUse(c, pr, "C04-D9")
+	}
+}
+
+// c04Readers: the READ side of the same map — totals, emptiness, extreme indexes and iteration of every store.
+func c04Readers(c *Ctx) {
+	storeI := c.P.NamedType(pkgStore, "Store")
+	if storeI == nil {
+		return
+	}
+	impls := c.P.Implementations(storeI)
+	c04Total(c, impls)
+	c04Extremes(c, impls)
+	c04SparseFolds(c, "C04-D4")
+	if pr := c.paginated(); pr.err == "" {
+		c04PaginatedEmptiness(c, pr)
+		c04PaginatedExtremes(c, pr, "C04-D4")
+	}
+}
